@@ -13,7 +13,8 @@ VARIABLE last
 RECURSIVE JoinS(_, _)
 JoinS(args, i) == IF i > Len(args) THEN ""
                   ELSE (IF i > 1 THEN "," ELSE "") \o args[i] \o JoinS(args, i + 1)
-ApplyStr(n, args) == "f" \o ToString(n) \o "(" \o JoinS(args, 1) \o ")"
+ApplyStr(n, args) == IF \E i \in 1..Len(args) : args[i] \in {"!", "ERR"}      \* a poisoned argument: the function raises
+                     THEN "ERR" ELSE "f" \o ToString(n) \o "(" \o JoinS(args, 1) \o ")"
 DrawStr(d, r, pv) == "s" \o ToString(d) \o "<" \o ToString(r) \o ">(" \o JoinS(pv, 1) \o ")"
 
 \* inputs as ascending sequences of a non-empty subset of earlier nodes
@@ -29,6 +30,7 @@ Graphs ==
 
 Init ==
   /\ N = NN
+  /\ ord = [i \in 1..N |-> i]
   /\ \E g \in Graphs :
        /\ kind = [n \in 1..NN |-> g[n].k]
        /\ inp = [n \in 1..NN |-> SetToSeq(g[n].ins, NN)]
@@ -37,7 +39,7 @@ Init ==
        val = [n \in 1..NN |-> IF Transient(n) THEN None ELSE
                 FreshUpTo(NN, [m \in 1..NN |-> IF kind[m] = "v" THEN a[m] ELSE None])[n]]
   /\ flag = [n \in 1..NN |-> FALSE] /\ dirty = [n \in 1..NN |-> FALSE]
-  /\ auto = TRUE /\ slots = <<>> /\ evald = {}
+  /\ auto = TRUE /\ slots = <<>> /\ evald = {} /\ raised = FALSE
   /\ last = <<"init">>
 
 DoAssign    == (\E n \in Node, x \in Atoms : Assign(n, x)) /\ UNCHANGED last
